@@ -54,5 +54,22 @@ def extra(ctx, res):
         boolish = k == BOOL or (isinstance(k, Const) and isinstance(k.value, bool)) or (isinstance(k, Union) and all(x == BOOL or (isinstance(x, Const) and isinstance(x.value, bool)) for x in k.members))
         res.check(boolish, "K-BOOL", fi.short, "return kind " + repr(k), "bool", f"{m} can return a non-boolean object (a truthy table for an absent item)", loc(fi, fi.node))
     with res.guard("check_filter_clientsctx, res, DEGREE  cc.isolated_nodes, cc.is_isolate"):
-        check_filter_clients(ctx, res, DEGREE + ["cc.isolated_nodes", "cc.is_isolated", "degree.in_degree", "degree.out_degree", "degree.in_degree_sequence", "degree.out_degree_sequence"][:2])
+        check_filter_clients(ctx, res, DEGREE[:2])
+    # the directed degree module (an anchor of C02): kind discipline of everything in the file (an edge id is not a position in
+    # get_edges() / get_sizes()), filters forwarded, the hypergraph left untouched
+    from ._containers import KIND_RULES
+
+    ddeg = "hypergraphx/measures/directed/degree.py"
+    ctx.add_sites(res, ctx.sites(rules=KIND_RULES.keys(), files=[ddeg]))
+    from .. import forward as F
+    from ..effects import Effects, check_pure
+
+    eff = Effects(ctx)
+    dfuncs = [fi for q, fi in sorted(ctx.prog.functions.items()) if fi.module.relpath == ddeg and fi.parent is None and fi.cls is None]
+    for fi in dfuncs:
+        if fi.params and not fi.name.startswith("_"):
+            with res.guard(f"E-PURE of {fi.short}"):
+                check_pure(ctx, eff, res, fi, roots=(fi.params[0].arg,))
+    with res.guard("F-FWD in the directed degree module"):
+        F.check_forwarding(ctx, res, dfuncs)
     return res
